@@ -136,6 +136,10 @@ func suiteCuckoo(c *Ctx) {
 	for r := 0; r < 6; r++ {
 		cuckooFaultDuringWalk(c, r)
 	}
+	for _, redis := range []bool{false, true} {
+		cuckooLookupThenEvictThenRemove(c, redis)
+		cuckooFaultDuringSearch(c, redis)
+	}
 	// more slots per bucket than buckets (slot numbers and bucket numbers must not be confused)
 	for _, g := range [][2]uint64{{2, 4}, {2, 8}, {4, 8}, {3, 7}} {
 		cuckooFullRollback(c, g[0], g[1], true)
@@ -647,6 +651,126 @@ var _ = sort.Ints
 // cuckooFullRollback: a completely full filter (loaded through Import) and non-destructive inserts
 // that must fail after a LONG eviction walk (500 retries: most cells are visited, many of them
 // twice): every one of them leaves the filter exactly as it was (C14), whatever the geometry.
+// cuckooLookupThenEvictThenRemove: Lookup(x) - then an Insert(y) that must relocate x (buckets of one
+// slot; both candidate buckets of y are the bucket x sits in) - then Remove(x) with no query in
+// between.  Whatever Lookup remembered about where x was is out of date: Remove must take out x,
+// not whatever lives in its old slot now.
+func cuckooLookupThenEvictThenRemove(c *Ctx, redis bool) {
+	n, fpl := uint64(8), uint64(3)
+	type cand struct {
+		e      []byte
+		fp     string
+		i1, i2 uint64
+	}
+	var xs, ys []cand
+	for i := 0; i < 4000 && (len(xs) < 40 || len(ys) < 40); i++ {
+		e := []byte(fmt.Sprintf("hint-%d-%d", c.seed, i))
+		fp, i1, i2, ok := cuckooPos(e, n, fpl)
+		if !ok {
+			continue
+		}
+		if i1 == i2 {
+			ys = append(ys, cand{e, fp, i1, i2})
+		} else {
+			xs = append(xs, cand{e, fp, i1, i2})
+		}
+	}
+	done := 0
+	for _, x := range xs {
+		for _, y := range ys {
+			if done >= 3 || y.i1 != x.i1 || y.fp == x.fp {
+				continue
+			}
+			cfg := cuckooCfg{n: n, b: 1, fpl: fpl, retries: 10, redis: redis}
+			h, err := cfg.build()
+			if err != nil || h == nil {
+				return
+			}
+			c.rep.Cases++
+			done++
+			ok1 := false
+			safely(func() { ok1 = h.Insert(x.e, false) })
+			found, _ := h.Lookup(x.e)
+			ok2 := false
+			rand.Seed(int64(done))
+			res := safely(func() { ok2 = h.Insert(y.e, false) })
+			if !ok1 || !found || res.panicked || !ok2 {
+				continue // (x did not land in its first bucket, or y could not be placed: not the scenario)
+			}
+			removed, rerr := h.Remove(x.e)
+			fx, _ := h.Lookup(x.e)
+			fy, _ := h.Lookup(y.e)
+			c.op("Lookup-Insert(evicting)-Remove")
+			if !removed || rerr != nil || fx || !fy || h.Length() != 1 {
+				c.fail([]string{"C02", "C13"}, "cuckoo-remove-after-relocation", fmt.Sprintf("%s: Insert(x), Lookup(x)=true, Insert(y) relocating x, Remove(x)=%v (%v): afterwards Lookup(x)=%v Lookup(y)=%v Length=%d (want true: false true 1)", cfg, removed, rerr, fx, fy, h.Length()),
+					map[string]interface{}{"x": hexStr(x.e), "y": hexStr(y.e), "redis": redis})
+				return
+			}
+			c.branch("remove-after-relocation")
+		}
+	}
+}
+
+// cuckooFaultDuringSearch: Redis fails the command that searches a bucket.  "I could not look" is not
+// "it is not there": Lookup / Remove of a stored element must report the error (or the truth),
+// never a definite (false, nil).
+func cuckooFaultDuringSearch(c *Ctx, redis bool) {
+	if !redis {
+		return
+	}
+	f, err := gostatix.NewCuckooFilterRedisWithRetries(4, 2, 3, 10)
+	if err != nil {
+		return
+	}
+	var e []byte
+	for i := 0; i < 200; i++ {
+		e = []byte(fmt.Sprintf("search-fault-%d-%d", c.seed, i))
+		if _, _, _, ok := cuckooPos(e, 4, 3); ok {
+			break
+		}
+	}
+	f.Insert(e, false)
+	if ok, _ := f.Lookup(e); !ok {
+		return
+	}
+	c.rep.Cases++
+	fh := getFaults()
+	for _, what := range []string{"Lookup", "Remove"} {
+		for skip := 0; skip < 2; skip++ {
+			fh.mu.Lock()
+			// skip = 1: an outage for the whole call (every command fails); skip = 0: one failure
+			fh.armed, fh.lost, fh.sticky, fh.only, fh.skip = true, false, skip == 1, "", 0
+			fh.fired = 0
+			fh.mu.Unlock()
+			var ok bool
+			var oerr error
+			res := safely(func() {
+				if what == "Lookup" {
+					ok, oerr = f.Lookup(e)
+				} else {
+					ok, oerr = f.Remove(e)
+				}
+			})
+			fh.mu.Lock()
+			fired := fh.fired > 0
+			fh.armed, fh.sticky, fh.skip = false, false, 0
+			fh.mu.Unlock()
+			c.op(what + ".under-fault")
+			if fired && !res.panicked && !ok && oerr == nil {
+				still, _ := f.Lookup(e)
+				if still {
+					c.fail([]string{"C13", "C02"}, "cuckoo-search-error-reported-as-absent", fmt.Sprintf("CuckooFilterRedis: Redis failed command %d of %s(e) for a stored element; %s returned (false, nil) - and the element is still there", skip+1, what, what), map[string]interface{}{"element": hexStr(e), "operation": what, "failed_command": skip + 1})
+					return
+				}
+			}
+			if what == "Remove" && ok {
+				f.Insert(e, false)
+			}
+		}
+	}
+	c.branch("search-under-fault")
+}
+
 // cuckooFaultDuringWalk: Redis refuses one LSET somewhere in the eviction walk of a non-destructive
 // insert into a full filter (the command is not executed).  The insert cannot succeed; whatever it
 // reports, the walk is undone: the stored entries are what they were.
